@@ -190,6 +190,9 @@ pub struct Rec {
     pub has_network_ref: bool,
     pub version_v1: bool,
     pub timeout_hdr: Option<String>,
+    /// at the moment of this event: does the serving network (reached through the NetworkRef
+    /// extension) list the request's peer? None if it cannot be told.
+    pub peer_listed: Option<bool>,
 }
 
 #[derive(Debug)]
@@ -265,6 +268,13 @@ struct Guard {
     rec: Arc<Recorder>,
     base: Rec,
     finished: bool,
+    net: Option<anemo::NetworkRef>,
+}
+
+fn listed(net: &Option<anemo::NetworkRef>, peer: &Option<[u8; 32]>) -> Option<bool> {
+    let n = net.as_ref()?.upgrade()?;
+    let p = (*peer)?;
+    Some(n.peers().contains(&anemo::PeerId(p)))
 }
 
 impl Drop for Guard {
@@ -272,6 +282,7 @@ impl Drop for Guard {
         let mut r = self.base.clone();
         r.t_us = (Instant::now() - self.rec.epoch).as_micros() as u64;
         r.ev = if self.finished { Ev::Finish } else { Ev::Drop };
+        r.peer_listed = listed(&self.net, &r.peer);
         self.rec.log.lock().unwrap().push(r);
     }
 }
@@ -313,12 +324,17 @@ impl tower::Service<Request<Bytes>> for RecorderService {
                 has_network_ref: req.extensions().get::<anemo::NetworkRef>().is_some(),
                 version_v1: req.version() == anemo::types::Version::V1,
                 timeout_hdr: req.headers().get("timeout").cloned(),
+                peer_listed: None,
             };
+            let net = req.extensions().get::<anemo::NetworkRef>().cloned();
+            let mut base = base;
+            base.peer_listed = listed(&net, &base.peer);
             rec.log.lock().unwrap().push(base.clone());
             let mut guard = Guard {
                 rec: rec.clone(),
                 base,
                 finished: false,
+                net,
             };
             let exp = expected_response_capped(req.route(), req.headers(), req.body(), rec.resp_cap.load(Ordering::Relaxed));
             if let Some(ctl) = &ctl {
